@@ -173,6 +173,50 @@ func C10(c *Ctx) {
 			sort.Strings(fs)
 			regs = append(regs, reg{in, fs})
 		}
+		if len(regs) == 1 {
+			// one registration fed by loader helpers (loadAccountFromCache / loadAccountFromStorage): the loaders are the
+			// load paths, each must initialise the same fields of the account it receives
+			mu := regs[0].in.(*ssa.MapUpdate)
+			obj := core.Strip(mu.Value)
+			var loaders []reg
+			for _, call := range core.Calls(ga) {
+				g := core.StaticCallee(call)
+				if g == nil || len(g.Blocks) == 0 || core.PkgOf(g) != ledgerPkg || g.Name() == "newAccount" {
+					continue
+				}
+				for ai, a := range call.Common().Args {
+					if core.Strip(a) != obj || ai >= len(g.Params) {
+						continue
+					}
+					set := map[string]bool{}
+					for _, rf := range c.regionOf(g, 1) {
+						for _, gb := range rf.fn.Blocks {
+							for _, y := range gb.Instrs {
+								if gst, ok := y.(*ssa.Store); ok {
+									if _, f, base, okf := core.FieldOf(gst.Addr); okf {
+										if bp, isP := core.Strip(base).(*ssa.Parameter); isP && strings.HasSuffix(bp.Type().String(), "SimpleAccount") {
+											set[f] = true
+										}
+									}
+								}
+							}
+						}
+					}
+					if len(set) == 0 {
+						continue
+					}
+					var fs []string
+					for f := range set {
+						fs = append(fs, f)
+					}
+					sort.Strings(fs)
+					loaders = append(loaders, reg{call, fs})
+				}
+			}
+			if len(loaders) >= 2 {
+				regs = loaders
+			}
+		}
 		r.Floor("R10.7", "load paths of GetAccount", len(regs), 2)
 		for i, rg := range regs {
 			same := strings.Join(rg.fields, ",") == strings.Join(regs[0].fields, ",")
